@@ -22,7 +22,7 @@ RULE = ('case = (device parameter table over all 10 firmware types, protocol gen
 ASSUMPTIONS = ['simulated device implements the firmware param protocol (read/write/misc) as documented',
                'a default-value reply whose first value byte equals ENOENT is ambiguous in the protocol; None or the value '
                'are both accepted for it', 'each (misc command, parameter) pair is outstanding at most once']
-REQUIRED = ['mon.writes_checked', 'mon.refused_checked', 'mon.value_replies', 'mon.callback_invocations',
+REQUIRED = ['mon.values_read_back_inside_an_update_callback', 'mon.writes_checked', 'mon.refused_checked', 'mon.value_replies', 'mon.callback_invocations',
             'mon.misc_replies', 'mon.one_outstanding_pairs', 'mon.precedence_pairs', 'mon.notifications',
             'mon.multi_outstanding_misc_cases', 'mon.v1_cases', 'mon.state_queries_answered_enoent',
             'mon.instant_reply_cases_with_statement_level_preemption', 'mon.additional_listeners_checked',
@@ -168,7 +168,18 @@ def run(desc, ctx):
             return
         s.sleep(0.2)
         ob['t0_rx'], ob['t0_tx'] = len(spec.rx), len(spec.tx)
-        cf.param.add_update_callback(cb=lambda n, v: ob['all'].append((n, v)))
+        def on_any(n, v):
+            ob['all'].append((n, v))
+            # what a listener reads back from the library while it is being notified is the value it is notified of
+            try:
+                seen = cf.param.get_value(n)
+            except Exception as e:  # noqa
+                seen = 'raised %r' % (e,)
+            ob['readback'] = ob.get('readback', 0) + 1
+            if seen != v and len(ob['stale_readback']) < 4:
+                ob['stale_readback'].append((n, v, seen))
+        ob['stale_readback'] = []
+        cf.param.add_update_callback(cb=on_any)
         for wn in watch_names:
             g, n = wn.split('.')
             ob['byname'][wn] = []
@@ -424,6 +435,10 @@ def run(desc, ctx):
                                                                      'type': simcf.PARAM_TYPES[p['t']][0]})
                 return
     check_stream('all-params', ob['all'], exp_updates)
+    ctx.count('mon.values_read_back_inside_an_update_callback', ob.get('readback', 0))
+    if ob.get('stale_readback'):
+        ctx.violate('param:get_value-inside-the-update-callback-differs-from-the-notified-value',
+                    {'name_notified_read_back': ob['stale_readback']}, replay=rp)
     for wn, got in ob['byname'].items():
         check_stream('per-parameter', got, [(i, v) for (i, v) in exp_updates
                                             if '%s.%s' % (by_index[i]['g'], by_index[i]['n']) == wn])
